@@ -214,6 +214,18 @@ def check(ctx):
             if c.get("fname") == "drop_resources" and (c.get("trait") == R.T_CONS or R.T_CONS in (c.get("resolved") or c.get("f") or "")):
                 ok = f.get("impl_self") == STREAM and f.get("impl_trait") == "std::ops::Drop"
                 ctx.ob("R06.5", f"{f['key']}|calls|drop_resources", ok, body.loc(b), "the running-stream count drops only when the stream object itself is dropped (Drop for MutinyStream): the executor drops it after the pipeline finished")
+    # ------------------------------------------------------------------ R06.8 the backlog close waits for is what the containers really hold
+    # (`pending_items_count` / `flush` and the stream's own "nothing left" test are the rings' length / emptiness queries: a query that goes wrong across the counter
+    #  wrap -- saturating instead of wrapping difference -- lets flush pass and the stream end with accepted events still buffered; for the log channel the published
+    #  tail must never run ahead of a slot that is still being written.  Shared with C02 R02.2 / R02.5 and C09 R09.1 / R09.3.)
+    import importlib
+    C02 = importlib.import_module("props.C02"); C09 = importlib.import_module("props.C09")
+    class OnlyBacklog(util.PrefixedCtx):
+        def ob(self, rule, key, ok, site="", detail="", nontrivial=True, undecided=False):
+            if rule in ("R02.2", "R02.5", "R09.1", "R09.3"): return super().ob(rule, key, ok, site, detail, nontrivial, undecided)
+            return ok
+    C02.check(OnlyBacklog(ctx, "R06.8")); C09.check(OnlyBacklog(ctx, "R06.8"))
+    ctx.floor("R06.8", 10)
     ctx.floor("R06.1", 12); ctx.floor("R06.3", 13); ctx.floor("R06.4", 12); ctx.floor("R06.5", 1); ctx.floor("R06.6", 14)
 
 
